@@ -1,5 +1,6 @@
 import Sm9.Proofs.Sqrt
 import Sm9.Proofs.Consts
+import Sm9.Proofs.Decoders
 /-!
 # C14 — Square roots are sound and complete in Fq and Fq2
 Full strength on the model: for **every** x in Fq and in Fq2, `sqrt x` is `some s` with
@@ -22,6 +23,11 @@ theorem fq2_sqrt_real (a : Fq) : (Fq2.sqrt { c0 := a, c1 := 0 }).isSome = true :
 theorem fq2_sqrt_zero : Fq2.zero.sqrt = some Fq2.zero := by decide +kernel
 theorem exponents : Fq.minus1_div4 = (Consts.FQ - 1) / 4 ∧ Fq.minus5_div8 = (Consts.FQ - 5) / 8 ∧ Consts.FQ % 8 = 5 :=
   ⟨minus1_div4_eq, minus5_div8_eq, q_mod_8⟩
+/-- consequence: compressed-point decoding succeeds for every x-coordinate that carries a curve
+    point, with the prefix selecting the parity of y (G1; G2 under Re y ≠ 0 is C10's partial) -/
+theorem g1_decompression_succeeds (x y : Fq) (h : y * y = x * x * x + b1) :
+    Api.g1FromCompressed (compByte y.is_even :: Api.fqToSlice x) = .ok { x := x, y := y, z := 1 } :=
+  Sm9.g1_from_compressed_encode x y h
 /-- the D6 witnesses on the repaired code: −4 and 2 (imaginary part 0) have verified roots -/
 theorem d6_witnesses :
     ((Fq2.new (-(Fq.ofNat 4)) 0).sqrt.map fun s => decide (s * s = Fq2.new (-(Fq.ofNat 4)) 0)) = some true ∧
